@@ -418,7 +418,7 @@ theorem parser_reads_prefix (f rbp bb : Nat) (t h : Ecal.Lex.Tok) (ts' : List Ec
 /-! ## parse (print e) = e on the REAL parser model
 
 `Ecal.Parse.run` is the parser model of C07 (`parse_wellformed`); `RP.realToks` assigns to every abstract token of the
-printed tree a real token of the table in Parser.lean (numbers for atoms), `RP.nodeE` is the node tree the real
+printed tree a real token of the table in Parser.lean (number and identifier tokens for atoms), `RP.nodeE` is the node tree the real
 parser builds. Parser.lean's operator table is a HAND COPY of astNodeMap; `RP.tablesAgree` (it has every operator of
 the table regenerated from parser.go with the same name, denotation and binding) is a HYPOTHESIS of the theorem, its
 value is reported in the evidence of every run — a renumbering of bindings in parser.go makes it false without making
@@ -461,17 +461,19 @@ theorem pIn_annotW (br : Head → Head → Nat → Bool → Bool) (e : Expr) (h 
     simp only [annotW, RP.pIn, hw, h.1, ih h.2, Bool.and_self]
 
 /-- **parse (print e) = e on the real parser model, with the rule the printer models run.** For every operator
-    tree `e` of any depth over the real table (infix operators; prefix `+ - not let` and the sink attributes; number
-    atoms), outside the known class mul-right-brackets: the REAL parser model `Ecal.Parse.run`, started on the real
+    tree `e` of any depth over the real table (infix operators; prefix `+ - not let` and the sink attributes; atoms
+    that are number tokens — even index — or IDENTIFIER tokens — odd index, read by `ndIdentifier`), outside the known
+    class mul-right-brackets: the REAL parser model `Ecal.Parse.run`, started on the real
     tokens of the printed tree (parentheses by `realBr`, the rule extracted from prettyprinter.go) followed by an
     end-of-input token, returns exactly the node tree of `e` and stops at the end token — for every fuel from
     `1 + cost` on; under the hypothesis that Parser.lean's table agrees with the regenerated one.
-    (`_partial`: `return <value>` operands, identifier atoms with their call / access chains, comments and line
+    The end token must not be `.`, `(` or `[` (`RP.FOK`: it would continue an identifier).
+    (`_partial`: `return <value>` operands, call / access chains behind an identifier atom, comments and line
     breaks inside the expression are not covered; the printed TEXT is tied to these tokens by the correspondence run
     and by `quote_lex_roundtrip` for string atoms, not by a lexer theorem.) -/
 theorem print_parse_expr_real_parser_partial (e : Expr) (hin : headsIn okHead e = true)
     (hne : hasExc realPowers realExc e = false) (hagree : RP.tablesAgree = true)
-    (eof : Ecal.Lex.Tok) (heof : TP.Real eof)
+    (eof : Ecal.Lex.Tok) (heof : TP.Real eof) (hfo : RP.FOK 0 eof)
     (hb : (TP.nodeOf 0 eof).binding = 0) (F : Nat)
     (hF : 1 + RP.cost (annotW realPowers realExc realBr e) ≤ F) :
     Ecal.Parse.run F 0 (TP.st 0 (TP.nodeOf 0 (RP.hdT RP.realToks (annotW realPowers realExc realBr e)))
@@ -491,7 +493,7 @@ theorem print_parse_expr_real_parser_partial (e : Expr) (hin : headsIn okHead e 
     (adm_zero realPowers real_bp_pos e)
   have := RP.real_ok_parses RP.realToks realPowers RP.okB RP.okP (RP.good_realToks hagree)
     (annotW realPowers realExc realBr e) 0 0 0 (Nat.le_refl _) hok (pIn_annotW realBr e hin) eof []
-    (.ok (RP.nodeE RP.realToks e) (TP.st 0 (TP.nodeOf 0 eof) [])) 1 heof (Nat.le_of_eq hb)
+    (.ok (RP.nodeE RP.realToks e) (TP.st 0 (TP.nodeOf 0 eof) [])) 1 heof hfo (Nat.le_of_eq hb)
     (by
       intro F2 hF2
       obtain ⟨f2, rfl⟩ : ∃ f2, F2 = f2 + 1 := ⟨F2 - 1, by omega⟩
@@ -503,8 +505,20 @@ theorem print_parse_expr_real_parser_partial (e : Expr) (hin : headsIn okHead e 
 /-- non-vacuity: `2 * (3 + 4) <EOF>` and `not (1 and 2)`-shaped trees satisfy the hypotheses -/
 example : headsIn okHead (Expr.bin iTimes (.atom 2) (.bin 0 (.atom 3) (.atom 4))) = true ∧
     hasExc realPowers realExc (Expr.bin iTimes (.atom 2) (.bin 0 (.atom 3) (.atom 4))) = false ∧
-    TP.Real (RP.mkTok 1) ∧ (TP.nodeOf 0 (RP.mkTok 1)).binding = 0 := by
-  refine ⟨by decide, by decide, by unfold TP.Real; decide, by decide⟩
+    TP.Real (RP.mkTok 1) ∧ RP.FOK 0 (RP.mkTok 1) ∧ (TP.nodeOf 0 (RP.mkTok 1)).binding = 0 := by
+  refine ⟨by decide, by decide, by unfold TP.Real; decide, by unfold RP.FOK; decide, by decide⟩
+
+/-- `a * (3 + b)` with identifier atoms (odd indices) is read back by the real parser model: an instance of the theorem
+    (under the table hypothesis) -/
+example (hagree : RP.tablesAgree = true) :
+    let e := Expr.bin iTimes (.atom 1) (.bin 0 (.atom 6) (.atom 3))
+    ∀ F, 1 + RP.cost (annotW realPowers realExc realBr e) ≤ F →
+      Ecal.Parse.run F 0 (TP.st 0 (TP.nodeOf 0 (RP.hdT RP.realToks (annotW realPowers realExc realBr e)))
+        (RP.tlT RP.realToks (annotW realPowers realExc realBr e) ++ [RP.mkTok 1])) =
+      .ok (RP.nodeE RP.realToks e) (TP.st 0 (TP.nodeOf 0 (RP.mkTok 1)) []) := by
+  intro e F hF
+  exact print_parse_expr_real_parser_partial e (by decide) (by decide) hagree (RP.mkTok 1) (by unfold TP.Real; decide)
+    (by unfold RP.FOK; decide) (by decide) F hF
 
 /-- non-vacuity: the tokens `true <EOF>` and `not true <EOF>` satisfy the hypotheses — `not true` is read
     back as `not(true)` by instantiating both lemmas -/
